@@ -141,7 +141,12 @@ let oracle_c03_case script trace =
              then NfRequest (z_of_int !now, (!fx).fx_ctx, nf_type_of_bit (num a "type" 32), num a "force" 0 <> 0)
              else NfTick (z_of_int !now, (!fx).fx_ctx) in
            let sup = try int_of_string (get "sup") with _ -> 0 in
-           steps := { os_op = op; os_evs = nf_parse_evs (get "ev"); os_stash_empty = (get "stash" = "-");
+           let stash = if get "stash" = "-" then [] else
+             List.map (fun t ->
+               let n = String.length t in
+               { sh_type = nf_type_of_bit (int_of_string (String.sub t 0 (n - 1))); sh_force = (t.[n - 1] = 'f'); sh_reminder = false })
+               (String.split_on_char ',' (get "stash")) in
+           steps := { os_op = op; os_evs = nf_parse_evs (get "ev"); os_stash = stash;
                       os_sup_problem = (sup land 32 <> 0) } :: !steps
            end
          end)
@@ -152,7 +157,7 @@ let oracle_c03_case script trace =
     (match nf_oracle (!fx).fx_cfg (List.rev !steps) with
      | (Some (idx, code), _) -> Some (Printf.sprintf "op=%s rule=%s class=delivery-rule" (zs idx) (zs code))
      | (None, Some (idx, code)) ->
-       Some (Printf.sprintf "op=%s class=%s" (zs idx) (if int_of_z code = 100 then "stale-notified-users" else "nomore-reset"))
+       Some (Printf.sprintf "op=%s class=%s" (zs idx) (if int_of_z code = 101 then "nomore-reset" else "unknown-finding-code"))
      | (None, None) -> None)
 
 let () =
